@@ -157,6 +157,13 @@ func (w *c35World) token(state string, publish bool) (*ua.NodeID, error) {
 	switch state {
 	case "null":
 		return nil, nil
+	case "unknown-string":
+		return ua.NewStringNodeID(1, "no-such-session"), nil
+	case "unknown-guid":
+		return ua.NewGUIDNodeID(1, "AAAAAAAA-BBBB-CCCC-DDDD-EEEEEEEEEEEE"), nil
+	case "victim":
+		// the token of another client's activated session (bound to that client's channel)
+		return w.vtok, nil
 	case "unknown":
 		tok = ua.NewNumericNodeID(0, 0x7ffffff1)
 		for _, t := range w.srv.VerifSessionTokens() {
@@ -414,8 +421,22 @@ func c35() {
 	var jobs [][]byte
 	var meta []c35Job
 	var svc []string
-	for i, id := range ids {
-		for _, t := range c35TokenStates {
+	states := c35TokenStates
+	if evid.Thorough() {
+		states = append(append([]string{}, states...), "unknown-string", "unknown-guid", "victim")
+	}
+	// the cells that can end in the watchdog (Publish) first: they are the long pole
+	order := make([]int, 0, len(ids))
+	for i := range ids {
+		if names[i] == "PublishRequest" {
+			order = append([]int{i}, order...)
+		} else {
+			order = append(order, i)
+		}
+	}
+	for _, i := range order {
+		id := ids[i]
+		for _, t := range states {
 			j := c35Job{TypeID: id, Token: t}
 			b, _ := json.Marshal(j)
 			jobs = append(jobs, b)
@@ -476,10 +497,10 @@ func c35() {
 	}
 	r.Set("registered_services", len(ids))
 	r.Set("exempt_services", len(c35Exempt))
-	r.Set("token_states", c35TokenStates)
+	r.Set("token_states", states)
 	r.Set("judged_cells", judged)
 	r.Set("worker_deaths", p.Deaths)
-	r.Rule(fmt.Sprintf("grid of the %d request types with a registered handler x %d authentication token states, one brand-new real server per cell, request crafted to have an effect and sent raw over uasc; non-trivial = a non-exempt service with a token state other than valid (a judged cell); distinct = (service, token state)", len(ids), len(c35TokenStates)))
+	r.Rule(fmt.Sprintf("grid of the %d request types with a registered handler x %d authentication token states, one brand-new real server per cell, request crafted to have an effect and sent raw over uasc; non-trivial = a non-exempt service with a token state other than valid (a judged cell); distinct = (service, token state)", len(ids), len(states)))
 	r.Assume("exempt: the Discovery service set (FindServers, FindServersOnNetwork, GetEndpoints, RegisterServer, RegisterServer2), CreateSession, ActivateSession; OpenSecureChannel/CloseSecureChannel are handled below the service dispatch", "session error = any Bad status whose name contains Session, Security, Identity, UserAccessDenied, SecureChannel, Nonce or Certificate", "valid-token cells are control cells and are not judged")
 	r.Finish()
 }
